@@ -126,7 +126,7 @@ def royal_road1(individual, order):
     total = 0
     for i in range(nelem):
         value = int("".join(map(str, individual[i * order:i * order + order])), 2)
-        total += int(order) * int(value / max_value)
+        total += int(order) * (value // max_value)
     return total,
 
 
